@@ -376,6 +376,43 @@ pub fn tier_scenarios(prop: &str, tier: &str) -> u64 {
 /// Probes that must be non-zero in a thorough run (otherwise the workload needs retuning: exit 2).
 pub fn required_probes(prop: &str) -> &'static [&'static str] {
     match prop {
+        "C05" => &[
+            "short_read_fired",
+            "eintr_read_fired",
+            "short_write_fired",
+            "clock_tick_per_read_fired",
+            "clock_freeze_fired",
+            "decoy_clock_fired",
+            "library_sessions",
+            "probe_boundary_instant_hit_exactly",
+            "probe_one_nanosecond_before_expiry",
+            "probe_offset_moves_expiry_across_date",
+            "probe_same_instant_different_environment",
+            "probe_offset_changes_between_runs",
+            "grey_zone_judged_by_history_only",
+        ],
+        "C19" => &[
+            "short_read_fired",
+            "short_write_fired",
+            "eintr_read_fired",
+            "eintr_write_fired",
+            "tick_dup_fired",
+            "tick_lost_fired",
+            "tick_delayed_fired",
+            "tick_retry_fired",
+            "crash_before_commit_fired",
+            "crash_after_commit_fired",
+            "config_grows_fired",
+            "clock_step_fwd_fired",
+            "clock_tick_per_read_fired",
+            "tz_change_fired",
+            "library_sessions",
+            "fresh_process_references",
+            "probe_duplicate_tick_right_after_removing_tick",
+            "probe_history_with_two_or_more_removing_ticks",
+            "probe_inline_element_on_unwrap_wrapper_line",
+            "probe_unwrap_block_that_cannot_be_unwrapped",
+        ],
         "C20" => &[
             "short_read_fired",
             "short_write_fired",
@@ -389,6 +426,13 @@ pub fn required_probes(prop: &str) -> &'static [&'static str] {
             "probe_no_target_option_or_empty_set",
             "probe_explicit_time_under_tz",
             "probe_multibyte_split_by_short_read",
+            "hardprobe_eio_read",
+            "hardprobe_enospc_write",
+            "hardprobe_epipe_stdout",
+            "hardprobe_crash_mid_commit",
+            "hardprobe_invalid_utf8_input",
+            "hardprobe_invalid_utf8_config_line",
+            "hardprobe_stdin_is_tty",
         ],
         _ => &[],
     }
